@@ -338,6 +338,43 @@ def run(ctx):
                 ctx.mismatch("merge", replay, "model's merged step reproduces the two-step result on the real code", {"merged": mj})
         del reqs[:], metas[:]
 
+    def reused_pair(info, d, docs, s1, s2, merged, d2, replay):
+        """the statement is about every document on which the two-step sequence applies, and steps are values: the same
+        three step objects (first, second, merged) are applied to other documents; `merge` asked a second time for the same
+        two objects gives a step that is held to the same statement"""
+        for d_o in rng.sample(docs, min(len(docs), 3)):
+            if d_o is d:
+                continue
+            e1 = apply_doc(s1, d_o)
+            e2 = apply_doc(s2, e1) if e1 is not None else None
+            if e2 is None:
+                continue
+            ctx.count("merged_pair_on_another_document:" + type(s1).__name__)
+            em = apply_doc(merged, d_o)
+            rg = (True, 0, 0)
+            if isinstance(s1, ReplaceStep):
+                stg, rg = outcome(lambda: merge_compat(d_o, s1, s2))
+                if stg != "ok":
+                    continue
+            r2 = dict(replay, doc=d_o.to_json(), merged_for_document=d.to_json())
+            if em is None and not rg[0] and not guard_of[id(info)]:
+                ctx.count("merged-fails:guard-false")
+            elif em is None:
+                ctx.violation("merged-fails", "the merged step does not apply although the two-step sequence does", r2)
+            elif not em.eq(e2):
+                ctx.violation("merged-differs", "the merged step gives a different document than the two steps", dict(r2, two=e2.to_json(), one=em.to_json()))
+        stm2, again = outcome(lambda: s1.merge(s2))
+        ctx.count("merge_asked_again")
+        if stm2 != "ok":
+            ctx.violation("merge-raises", f"merge raised {again} when asked a second time for the same two steps", replay)
+        elif again is not None:
+            da = apply_doc(again, d)
+            if da is None:
+                ctx.violation("merged-fails", "the merged step (merge asked a second time) does not apply although the two-step sequence does", dict(replay, merged=again.to_json()))
+            elif not da.eq(d2):
+                ctx.violation("merged-differs", "the merged step (merge asked a second time) gives a different document than the two steps",
+                              dict(replay, merged=again.to_json(), two=d2.to_json(), one=da.to_json()))
+
     def one_doc(info, d, docs, extra=()):
         schema = info.schema
         for s1, s2 in list(extra) + adjacent_pairs(rng, info, d, docs):
@@ -387,6 +424,8 @@ def run(ctx):
                     ctx.violation("merged-size", "size delta differs", replay)
             reqs.append({"op": "merge", "a": info.step(s1), "b": info.step(s2)})
             metas.append((replay, info, d, d2, merged, dm))
+            if merged is not None and dm is not None and rng.random() < 0.3:
+                reused_pair(info, d, docs, s1, s2, merged, d2, replay)
 
     fam = schemas.family()
     aimed = [schemas.by_name("bridge"), schemas.by_name("bridge-local")]    # compatible_content not transitive
